@@ -45,8 +45,10 @@ def main(argv):
         repo = Repo()
         from sa import absint as _absint
         _absint.REPO = repo
+        _absint.EXCEPTION_BASES = repo.exception_bases()
         from sa import pm as _pm
         _pm.SIGNATURES = repo.signatures()
+        _pm.SIGNATURES.setdefault('property', ['fget', 'fset', 'fdel', 'doc'])
         _pm.SIGNATURES_ALL = repo._all_signatures
         _pm.DEFAULTS = repo._defaults
         ctx = report.Ctx(prop, tier, repo)
